@@ -654,6 +654,8 @@ def check(run):
     check_stale_loop_variables(run, A, ('pb_bss.evaluation.',))
     from ..opt import check_extent_loops
     check_extent_loops(run, A, ('pb_bss.evaluation.',))
+    from ..opt import check_result_buffers
+    check_result_buffers(run, A, ('pb_bss.evaluation.',))
     check_forwarding(run, A, ('pb_bss.evaluation.',))
     check_params_reach(run, A, ('pb_bss.evaluation.',))
     check_optional_truthiness(run, A, ('pb_bss.evaluation.',))
